@@ -269,8 +269,17 @@ def run(ctx, model):
                     touched[(path, b)] = touched.get((path, b), 0) + 1
         named = {}
         for (t, v, d) in reqs:
+            b = None
             if d[0] == "bit":
-                named[d[2] % 32 if "DWORD" in repr(d) else d[2]] = named.get(d[2] % 32 if "DWORD" in repr(d) else d[2], 0) + 1
+                b = d[2]
+            elif d[0] == "boolarr" and d[2] == 1:
+                b = d[1] % 32                     # one element of a BOOL array = one bit of its 32-bit word
+            elif d[0] == "boolmember":
+                b = d[1]                          # packed BOOL member = that bit of its host
+            elif d[0] == "dwordmember":
+                b = 0
+            if b is not None:
+                named[b] = named.get(b, 0) + 1
         for (path, b), cnt in touched.items():
             if cnt > max(1, named.get(b, 0)):
                 ctx.violation("bit-write-applied-more-than-once", dict(case, path=path.hex(), bit=b),
